@@ -283,7 +283,15 @@ impl Scenario for History {
                     spec.extra.push((cf.clone(), format!("@latin1:{}", text)));
                     ops.retain(|o| !matches!(o, HOp::Analyze { file, .. } | HOp::OpenClose { file } | HOp::Close { file } | HOp::CloseUnsaved { file } if *file == cf));
                     ops.push(HOp::Query);
-                    ops.push(HOp::Close { file: cf });
+                    ops.push(HOp::Close { file: cf.clone() });
+                    if rng.chance(500) {
+                        // ... and re-opened, half typed, before anything asked about it again: its last valid version is
+                        // then the file on disk, and nothing has parsed that since the close
+                        ops.pop();
+                        ops.pop();
+                        ops.push(HOp::Close { file: cf.clone() });
+                        ops.push(HOp::Analyze { file: cf, text: break_syntax(&mut rng, &text) });
+                    }
                 }
             }
             ops.push(HOp::Query);
